@@ -7,30 +7,37 @@ import vp
 
 sys.path.insert(0, os.path.join(vp.ROOT, "translate"))
 import c15_sites
+import c15_prog
 
 LEVEL = "proof"
 META = {
     "level": "proof",
-    "technique": "Coq proof of the cancellation/progress protocol model + site table regenerated from source (sites_ok, phase_counts_match, "
-                 "reset order evaluated in Coq) + cancel injection at every k-th check through a guarded hook, logged site words run through the extracted automaton",
-    "text": "Theorems: partial_never_escapes (for every bracketed path word obeying the post-loop-check discipline word_ok, every cancel point k, serial or "
-            "parallel, every order in which parallel chunks reach their check: the result is the complete uncancelled result or Cancelled-and-empty; also for any "
-            "sticky flag), missing_check_lets_partial_escape (the discipline is necessary), progress_bounds (done<=total at every point of every, also cancelled, "
-            "evaluation of trees and DAGs from any earlier state of a reused context, monotone after the reset; needs numerators-before-denominators, "
-            "reset_order_matters refutes the other order), progress_complete (done=total after an uncancelled completion for TREES, any collapse decisions), "
-            "progress_complete_dag_refuted (F1: shared sub-expression ends at 22/33), cancelled_is_sticky (cache poisoning). Generated obligations, evaluated by "
-            "Coq on the regenerated table: sites_ok for the seq and par configurations, phase_counts_match (11/6/13/5), reset_order_ok. Tie: for generated programs "
-            "(deferred trees incl. shared sub-expressions, BatchBoolean, Refine*, Hull, Minkowski*, FromMeshGL, Smooth, LevelSet) the uncancelled run is recorded, "
-            "then cancel is injected at the k-th check (quick: <=40 per program incl. first/last occurrences of sites; thorough: all k up to 1500 per program; seq build; real-TBB par build opt-in via VERIF_C15_PAR=1) and status, "
-            "emptiness, export hash, operand hashes, (done,total) at every check, re-query, a second evaluation through the cancelled context and a rebuild with "
-            "a fresh context are compared with the reference; the extracted automaton must classify every logged word consistently with the observed outcome; "
-            "the extracted reduction counter must predict (done,total) of every uncancelled tree/DAG evaluation.",
-    "note": "Trusted: Coq kernel, extraction, the token-level translator (path analysis of follower statements; an allow-list of 14 justified statements; "
-            "object-level functions BatchBoolean/BatchUnion/ToLeafNode/GetCsgLeafNode/Minkowski are taken as closed by status propagation and covered "
-            "dynamically), the hook. The link 'sites_ok table => every path word is word_ok' is the translator's claim, cross-checked by the automaton on every "
-            "logged word. Operand immutability is checked dynamically only (proved under C05). The parallel semantics is covered by the theorem (any chunk order); real-TBB runs are opt-in and were not validated.",
+    "technique": "Coq proof over an executable model of the cancellation/progress protocol + structured program table regenerated from source (statement "
+                 "structure of every ctx-aware function incl. the object-level ones; accepted by a proved-sound abstract interpreter evaluated in Coq) + cancel "
+                 "injection at every k-th check through a guarded hook; logged words checked for membership in the table's path language and by the extracted automaton",
+    "text": "Theorems: paths_are_disciplined (table_ok t = true -> every path word of every API function denoted by the table obeys the discipline wok: soundness "
+            "of the abstract interpreter over sequence/branch/loop/call/return/break/continue), partial_never_escapes (table_ok t -> for every path w of every API "
+            "function, every cancel point k, serial or parallel, every order in which parallel chunks reach their check: the result is the complete uncancelled result "
+            "or Cancelled-and-empty; instantiated on the regenerated tables of the seq and par configurations as pinned_partial_never_escapes), "
+            "partial_never_escapes_sticky_flag, missing_check_lets_partial_escape, progress_bounds and progress_complete about the current code (numerators reset "
+            "first, K credits per reduction, completion top-up: done<=total at every point of every evaluation, monotone, done=total after every uncancelled completion, "
+            "trees and DAGs), reset_order_matters, cancelled_is_sticky; the pre-fix DAG refutation (22/33) is kept as an Example. Generated obligations evaluated by Coq: "
+            "table_ok for seq and par (53 functions, 12 API roots), phase_counts_match (11/6/13/5), completion_topup, reset_order_ok. Tie: for generated programs "
+            "(deferred trees incl. shared sub-expressions, BatchBoolean, Refine*, Hull, Minkowski*, FromMeshGL, Smooth, LevelSet) the uncancelled run is recorded and its "
+            "site word must be a path of the API root in the generated grammar; then cancel is injected at the k-th check (seq: quick <=40 per program incl. first/last "
+            "occurrences of sites, thorough all k up to 1500; real-TBB par: 6 per program in quick, 300 in thorough) and status, emptiness, export hash, operand hashes, "
+            "(done,total) at every check, re-query, a second evaluation through the cancelled context and a rebuild with a fresh context are compared with the reference; "
+            "the extracted automaton must classify every logged word consistently with the observed outcome; the extracted reduction counter predicts (done,total).",
+    "note": "Trusted: Coq kernel, extraction, the token-level translator for the table itself (statement tree, check kinds, 'declarations are neutral', the allow-lists: "
+            "15 raw-level statements and ~40 object-level handle-forwarding statements, one justification each), the hook. Object-level functions are in the grammar; what "
+            "remains assumed there is that the allow-listed statements forward a Cancelled handle/status (C09) - exercised for every injected k. Operand immutability is "
+            "checked dynamically only (proved under C05). In par runs the log is ordered by check count, not time: monotonicity of Progress is compared in seq only.",
 }
 
+ROOT_OF = {"status": "Manifold::GetCsgLeafNode", "refine": "Manifold::Refine", "reflen": "Manifold::RefineToLength",
+           "reftol": "Manifold::RefineToTolerance", "hull": "Manifold::Hull", "minksum": "Manifold::MinkowskiSum",
+           "minkdiff": "Manifold::MinkowskiDifference", "frommesh": "ExecutionContext::FromMeshGL", "frommesh64": "ExecutionContext::FromMeshGL",
+           "smooth": "ExecutionContext::Smooth", "levelset": "ExecutionContext::LevelSet"}
 KCODE = {"LoopEntry": "E", "LoopChunk": "C", "AbortP": "P", "AbortF": "F", "Observe": "O"}
 CANCELLED = 14
 
@@ -240,14 +247,32 @@ def run(cx):
     except (c15_sites.TranslateError, Exception) as e:
         tr = None
         cx.broke("translate:c15_sites", "the site translator cannot parse the current sources: %r" % (e,))
+    pr = None
+    if tr is not None:
+        try:
+            pr = c15_prog.translate(vp.REPO, os.path.join(gen, "CancelProg.v"))
+        except Exception as e:
+            cx.broke("translate:c15_prog", "the structured translator cannot parse the current sources: %r" % (e,))
+    inst = ("Theorem pinned_partial_never_escapes : forall (f : string) (w : list tok2), paths table_%s f w ->\n"
+            "  forall (par : bool) (sched : nat -> nat -> nat) (k : nat),\n"
+            "  exists r0, exec2 never par sched w = Complete r0 /\\ Forall (Forall (eq true)) r0 /\\\n"
+            "    (exec2 (cancel_at k) par sched w = Complete r0 \\/ exec2 (cancel_at k) par sched w = CancelledEmpty).\n"
+            "Proof. exact (table_all_or_nothing table_%s table_is_ok). Qed.\n")
+    hdr2 = "From MV Require Import Proto.CancelModel Proto.CancelPathDefs Proto.CancelPathModel Gen.CancelProg.\n"
     obl = {
-        "CancelSitesOkSeq": "Lemma table_ok : sites_ok sites_seq = true.\nProof. vm_compute. reflexivity. Qed.\n",
-        "CancelSitesOkPar": "Lemma table_ok : sites_ok sites_par = true.\nProof. vm_compute. reflexivity. Qed.\n",
-        "CancelPhasesOk": "Lemma phases_ok : phase_counts_match phase_table = true /\\ k_phases_per_boolean = boolean_phase_sites.\n"
-                          "Proof. split; vm_compute; reflexivity. Qed.\n",
+        "CancelProgOkSeq": hdr2 + "Lemma table_is_ok : table_ok table_seq = true.\nProof. vm_compute. reflexivity. Qed.\n" + inst % ("seq", "seq"),
+        "CancelProgOkPar": hdr2 + "Lemma table_is_ok : table_ok table_par = true.\nProof. vm_compute. reflexivity. Qed.\n" + inst % ("par", "par"),
+        "CancelPhasesOk": "Lemma phases_ok : phase_counts_match phase_table = true /\\ k_phases_per_boolean = boolean_phase_sites /\\ completion_topup = true.\n"
+                          "Proof. repeat split; vm_compute; reflexivity. Qed.\n",
         "CancelResetOk": "Lemma reset_ok : reset_order_ok reset_order_tree false = true /\\ reset_order_ok reset_order_factory false = true /\\\n"
                          "  List.length reset_order_tree = 4 /\\ List.length reset_order_factory = 4.\nProof. repeat split; vm_compute; reflexivity. Qed.\n",
     }
+    for stale in ("CancelSitesOkSeq", "CancelSitesOkPar"):
+        for ext in (".v", ".vo", ".glob", ".vos", ".vok"):
+            try:
+                os.remove(os.path.join(gen, stale + ext))
+            except OSError:
+                pass
     for name, body in obl.items():
         txt = "(* GENERATED by checks/C15.py: obligation on the regenerated table. *)\nFrom Coq Require Import List String ZArith.\n" \
               "From MV Require Import Proto.CancelDefs Gen.CancelSites.\n" + body
@@ -256,18 +281,20 @@ def run(cx):
             open(p, "w").write(txt)
     cx.prove()
     if tr is not None:
+        todo = [n for n in obl if pr is not None or not n.startswith("CancelProg")]
         for name in obl:
             for ext in (".vo", ".glob", ".vos", ".vok"):
                 try:
                     os.remove(os.path.join(gen, name + ext))
                 except OSError:
                     pass
-        vp.coq_make(["Gen/%s.vo" % n for n in obl], timeout=600)
-        bad_sites = {cfg: [s for s in tr["configs"][cfg]["sites"] if "use" in s["followers"] or "EndTop" in s["terms"] or not s["terms"]] for cfg in ("seq", "par")}
+        vp.coq_make(["Gen/%s.vo" % n for n in todo], timeout=900)
+        def why(cfg):
+            c = pr["configs"][cfg] if pr else None
+            return "table_ok table_%s = false: %s" % (cfg, "; ".join(c["fails"][:6]) if c else "no table")
         desc = {
-            "CancelSitesOkSeq": "sites_ok sites_seq = false: " + "; ".join("%s (%s) followed by %s" % (s["id"], s["fn"], (s["uses"] or s["terms"])[:2]) for s in bad_sites["seq"][:6]),
-            "CancelSitesOkPar": "sites_ok sites_par = false: " + "; ".join("%s (%s) followed by %s" % (s["id"], s["fn"], (s["uses"] or s["terms"])[:2]) for s in bad_sites["par"][:6]),
-            "CancelPhasesOk": "phase credits per pipeline differ from the constants: %r" % (tr["phase_table"],),
+            "CancelProgOkSeq": why("seq"), "CancelProgOkPar": why("par"),
+            "CancelPhasesOk": "phase credits per pipeline differ from the constants, or the completion top-up is missing: %r topup=%r" % (tr["phase_table"], tr["topup"]),
             "CancelResetOk": "progress counters are not reset numerators-first: %r" % (tr["reset_order"],),
         }
         for name in obl:
@@ -275,9 +302,14 @@ def run(cx):
         for cfg in ("seq", "par"):
             if tr["configs"][cfg]["unknown_checks"]:
                 cx.broke("translate:unknown-check-sites", "IsCancelled sites the translator cannot classify: %s" % tr["configs"][cfg]["unknown_checks"][:8])
-        cx.cov["site_table"] = {cfg: {"open_ctx_aware_calls": len(tr["configs"][cfg]["sites"]),
-                                      "loops": sum(1 for s in tr["configs"][cfg]["sites"] if s["kind"] == "loop"),
-                                      "check_sites": len(tr["configs"][cfg]["checks"])} for cfg in ("seq", "par")}
+            if pr is not None:
+                c = pr["configs"][cfg]
+                if c["ok"] != os.path.exists(os.path.join(gen, "CancelProgOk%s.vo" % cfg.capitalize())):
+                    cx.broke("translate:mirror-%s" % cfg, "the translator's Python mirror of table_ok (%s) disagrees with Coq" % c["ok"])
+        cx.cov["site_table"] = {cfg: dict(check_sites=len(tr["configs"][cfg]["checks"]),
+                                          **({"functions": pr["configs"][cfg]["functions"], "api_roots": pr["configs"][cfg]["roots"],
+                                              "closed_callees": len(pr["configs"][cfg]["closed"]), "open_callees": len(pr["configs"][cfg]["open"]),
+                                              "statement_counts": pr["configs"][cfg]["counts"]} if pr else {})) for cfg in ("seq", "par")}
         cx.cov["phase_table"] = tr["phase_table"]
         cx.cov["reset_order"] = tr["reset_order"]
         cx.cov["completion_topup_in_GetCsgLeafNode"] = tr["topup"]
@@ -299,12 +331,12 @@ def run(cx):
             import time
             time.sleep(3)
     drv = vp.ocaml_build("c15_driver", mls + [os.path.join(vp.ROOT, "extract/c15_driver.ml")])
-    # The par variant (real TBB; chunk checks race, so N and the word vary between runs) is implemented but was not
-    # validated against false alarms within the build budget: opt-in.
-    variants = ["seq", "par"] if (not cx.quick() and os.environ.get("VERIF_C15_PAR") == "1") else ["seq"]
+    # seq: deterministic, every comparison applies.  par (real TBB): chunk checks race, N and the word vary between runs; the
+    # outcome classes, stickiness, rebuild and the done<=total bound are compared, a small sample in quick, a large one in thorough.
+    variants = ["seq", "par"] if os.environ.get("VERIF_C15_PAR", "1") != "0" else ["seq"]
     totals = {"evaluations": 0, "nontrivial": 0, "dist": {}, "samples": 0}
     for variant in variants:
-        dynamic(cx, tr, drv, variant, totals)
+        dynamic(cx, tr, drv, variant, totals, pr)
     ign = [k for k in os.environ.get("VERIF_C15_IGNORE", "").split(",") if k]
     if ign:      # self-validation aid only (mutant runs before a finding is listed in known_findings.txt); never set by bin/check
         cx.notes.append("violation keys dropped by VERIF_C15_IGNORE: %s" % ign)
@@ -315,7 +347,7 @@ def run(cx):
                    "distribution": totals["dist"]})
 
 
-def dynamic(cx, tr, drv, variant, totals):
+def dynamic(cx, tr, drv, variant, totals, pr=None):
     exe = vp.build_harness("c15_cancel", variant, link_lib=True, extra=["-DVERIF_HAS_HOOK"])
     rng = random.Random(cx.seed * 1000003 + 15 + (7 if variant == "par" else 0))
     progs = programs(rng, cx.quick())
@@ -348,6 +380,24 @@ def dynamic(cx, tr, drv, variant, totals):
         if a and b and (a["h"], a["st"], a["N"] if variant == "seq" else "") != (b["h"], b["st"], b["N"] if variant == "seq" else ""):
             cx.broke("corr:C15/nondeterministic-reference %s" % p["name"], "two uncancelled runs differ: %s vs %s" % (a, b))
             refs.pop(p["name"], None)
+
+    # the uncancelled site word of every program must be (the projection of) a path of its API root in the generated grammar
+    if pr is not None and variant == "seq":
+        an, pg, roots, _ = pr["configs"]["seq"]["_prog"]
+        nonmem = 0
+        for p in progs:
+            word = W0.get((p["name"], 0))
+            if word is None or p["name"] not in refs:
+                continue
+            tags = [t for t, _, c in word for _ in range(c)]
+            rks = [k for k in roots if an.fns[k]["name"] == ROOT_OF[p["final"].split(":")[0]]]
+            res = [c15_prog.Matcher(pg, kinds).run(k, tags) for k in rks]
+            if not any(r[0] for r in res):
+                nonmem += 1
+                far = max([r[1][0] for r in res] or [0])
+                cx.broke("corr:C15/path-membership %s" % p["name"], "the logged uncancelled site word (%d checks) is not a path of %s in the generated table; "
+                         "matched %d checks, next sites %s" % (len(tags), ROOT_OF[p["final"].split(":")[0]], far, tags[far:far + 4]))
+        totals["dist"]["seq/path-membership"] = {"words": len(refs), "not-member": nonmem}
 
     # Level B tie: predicted (done,total) of uncancelled tree/DAG evaluations
     xin = "".join("X %s %s\n" % (p["name"], p["expr"]) for p in progs if p["final"] == "status")
@@ -383,7 +433,8 @@ def dynamic(cx, tr, drv, variant, totals):
         N = int(r["N"])
         ks = choose_ks(W0.get((p["name"], 0), []), N, cap, rng)
         if variant == "par":
-            ks = ks[:max(40, len(ks) // 4)] if cx.quick() else ks[:600] if N > 600 else ks
+            rng.shuffle(ks)
+            ks = sorted(ks[:(6 if cx.quick() else 300)])
         plan[p["name"]] = ks
         lines += [case_line(p["name"], k, p) for k in ks]
     out, crashes = run_parallel(exe, lines, kl, ko, 1500, workers=(8 if variant == "seq" else 3))
@@ -397,6 +448,8 @@ def dynamic(cx, tr, drv, variant, totals):
     ain, unknown = [], set()
     for (name, k), word in list(W.items()) + [((n, 0), w) for (n, _), w in W0.items()]:
         toks = []
+        if variant == "par":      # the log is in check-count order, not in real-time order: the flag itself is monotone in time
+            word = [x for x in word if not x[1]] + [x for x in word if x[1]]
         for tag, seen, cnt in word:
             kd = kinds.get(tag)
             if kd is None:
@@ -488,7 +541,7 @@ def check_progress_word(cx, p, k, pw, variant, completed, replay=None):
         if not started:
             continue
         cur = (done, total) if total > 0 else (1, 1)
-        if prev is not None and cur[0] * prev[1] < prev[0] * cur[1]:
+        if variant != "par" and prev is not None and cur[0] * prev[1] < prev[0] * cur[1]:      # par: racing loads, order of the log is not time order
             key = "progress-restarts-minkowski" if opk.startswith("mink") else "progress-decreases"
             cx.violation(key, "Progress() dropped from %d/%d to %d/%d inside one %s call (counters are reset per internal batch)"
                          % (prev[0], prev[1], done, total, p["final"]), rep)
